@@ -624,8 +624,9 @@ class C09(Check):
                  'exhaustively enumerated discovered and hand-written start '
                  'states, against an independent model of the documented '
                  'file format')
-    rule = ('cases = start states: (a) discover_df on every column of 0..R '
-            'rows over 20 column families (R=3 quick, 4 thorough for numeric), '
+    rule = ('cases = start states: (a) discover_df on every column of 0..3 '
+            'rows over 20 column families (rows as multisets in quick; every '
+            'row order and 4-row multisets in thorough), '
             'rex off/on, names and two-column frames; (b) every hand-written '
             'document of the format grammar: kind x value alphabet x entry '
             'form (scalar / {"value"} / {"value","precision"}) x type context, '
@@ -676,7 +677,8 @@ class C09(Check):
         ]
         if tier == 'thorough':
             L += [
-                ('T0-column4', 'discovered: 4-row columns; all row orders'),
+                ('T0-column4', 'discovered: every other row order of the 2-3 row '
+                               'columns; 4-row columns'),
                 ('T1-named', 'every H0 document under every field name'),
                 ('T2-triple', 'three kinds on one field, two orders'),
                 ('T3-frames2', 'discovered: all ordered pairs of families'),
@@ -710,28 +712,29 @@ class C09(Check):
             for d in triple_docs(tier):
                 yield {'k': 'hand', 'doc': J(d), 'form': 'indent4'}
         elif layer == 'D0-column':
+            # rows as multisets from 2 rows on (the discovered statistics do
+            # not depend on row order; thorough adds every other order)
             for fam in FAMILY_ORDER:
                 n = len(FAMILIES[fam])
-                big = n > 5
-                for idxs in index_tuples(n, 3, multiset_from=3 if big else None):
+                for idxs in index_tuples(n, 3, multiset_from=2):
                     for rex in ((0, 1) if fam in STRING_FAMILIES else (0,)):
                         yield {'k': 'disc', 'cols': [['a', fam, idxs]],
                                'rex': rex}
         elif layer == 'T0-column4':
             for fam in FAMILY_ORDER:
                 n = len(FAMILIES[fam])
-                if n > 5:
-                    # all row orders of the 3-row columns (quick took sorted)
-                    for idxs in itertools.product(range(n), repeat=3):
+                rexes = (0, 1) if fam in STRING_FAMILIES else (0,)
+                for r in (2, 3):
+                    for idxs in itertools.product(range(n), repeat=r):
                         if list(idxs) != sorted(idxs):
-                            for rex in (0, 1):
+                            for rex in rexes:
                                 yield {'k': 'disc',
                                        'cols': [['a', fam, list(idxs)]],
                                        'rex': rex}
-                else:
-                    for idxs in itertools.product(range(n), repeat=4):
-                        for rex in ((0, 1) if fam in STRING_FAMILIES
-                                    else (0,)):
+                if n <= 5:
+                    for idxs in itertools.combinations_with_replacement(
+                            range(n), 4):
+                        for rex in rexes:
                             yield {'k': 'disc',
                                    'cols': [['a', fam, list(idxs)]],
                                    'rex': rex}
